@@ -151,8 +151,9 @@ TimeSpec == InitChosen /\ [][TimeNext]_vars
 (* The menu of the free-running stress test: shared model programs with    *)
 (* their Compile calls and source text, the evaluate option lists a        *)
 (* goroutine may use (with the calendar fields of every instant), and the  *)
-(* Compile calls goroutines make on the side.  Emitted once; the harness   *)
-(* draws from it with its seeded generator.                                *)
+(* Compile calls goroutines make on the side.  Emitted once (by C04_Menu,  *)
+(* which adds the function-coverage programs); the harness draws from it   *)
+(* with its seeded generator.                                              *)
 RECURSIVE SetToSeq(_)
 SetToSeq(ss) == IF ss = {} THEN <<>> ELSE LET x == CHOOSE x \in ss : TRUE IN <<x>> \o SetToSeq(ss \ {x})
 
@@ -171,8 +172,6 @@ StressMenu ==
   [kind |-> "stressmenu",
    shared |-> [j \in 1..Len(StressShared) |-> ConcCCall(StressShared[j], RenderEmit(StressShared[j].prog))],
    eopts |-> SetToSeq({[k \in 1..Len(os) |-> ConcEOpt(os[k])] : os \in StressEvalOpts}),
-   ccalls |-> SetToSeq({ConcCCall(c, RenderBare(c.prog)) : c \in StressCompileCalls})]
-MenuNext == last.act = "init" /\ PrintT(ToJson(StressMenu)) /\ last' = Step("menu", 0, 0)
-            /\ UNCHANGED <<base, exper, sharedEnv, tz, clock, ticks, cs, exprs, es, cache, hist>>
-MenuSpec == Init /\ [][MenuNext]_vars
+   ccalls |-> SetToSeq({ConcCCall(c, RenderBare(c.prog)) : c \in StressCompileCalls}),
+   cover |-> <<>>]
 =============================================================================
